@@ -698,15 +698,11 @@ func BackSlice(v ssa.Value, o SliceOpts) map[ssa.Value]bool {
 		}
 	}
 	// helperOf: the region helper a call value runs, if any
-	helperOf := func(c *ssa.Call) *ssa.Function {
+	helpersOf := func(c *ssa.Call) []*ssa.Function {
 		if rg == nil || o.Local || c.Parent() == nil {
 			return nil
 		}
-		g := HelperCallee(c.Parent(), c)
-		if g == nil || g == rg.Root || !rg.in[g] {
-			return nil
-		}
-		return g
+		return rg.callees[c]
 	}
 	var visit func(v ssa.Value)
 	visitResults := func(g *ssa.Function, idx int) {
@@ -745,8 +741,8 @@ func BackSlice(v ssa.Value, o SliceOpts) map[ssa.Value]bool {
 							continue
 						}
 						for _, cs := range rg.sites[g] {
-							if args := cs.Common().Args; !cs.Common().IsInvoke() && j < len(args) {
-								visit(args[j])
+							if a := ArgForParam(cs, j); a != nil {
+								visit(a)
 							}
 						}
 					}
@@ -754,10 +750,14 @@ func BackSlice(v ssa.Value, o SliceOpts) map[ssa.Value]bool {
 			}
 		case *ssa.Extract:
 			if c, ok := x.Tuple.(*ssa.Call); ok {
-				if g := helperOf(c); g != nil {
-					seen[x.Tuple] = true
-					visitResults(g, x.Index)
-					return
+				if gs := helpersOf(c); len(gs) > 0 {
+					for _, g := range gs {
+						visitResults(g, x.Index)
+					}
+					if !rg.opaqueToo[c] {
+						seen[x.Tuple] = true
+						return
+					}
 				}
 			}
 			visit(x.Tuple)
@@ -780,6 +780,14 @@ func BackSlice(v ssa.Value, o SliceOpts) map[ssa.Value]bool {
 					visit(sv)
 				}
 			}
+			if x.Op == token.MUL && !o.Local && rg != nil {
+				// a field of a struct created in this activation: the values the region stores there
+				if srcs, ok := rg.LocalFieldSources(x); ok {
+					for _, sv := range srcs {
+						visit(sv)
+					}
+				}
+			}
 		case *ssa.BinOp:
 			visit(x.X)
 			visit(x.Y)
@@ -787,6 +795,13 @@ func BackSlice(v ssa.Value, o SliceOpts) map[ssa.Value]bool {
 			visit(x.X)
 		case *ssa.Field:
 			visit(x.X)
+			if !o.Local && rg != nil {
+				if srcs, ok := rg.LocalFieldSources(x); ok {
+					for _, sv := range srcs {
+						visit(sv)
+					}
+				}
+			}
 		case *ssa.IndexAddr:
 			visit(x.X)
 			if o.Indices {
@@ -825,9 +840,13 @@ func BackSlice(v ssa.Value, o SliceOpts) map[ssa.Value]bool {
 				})
 			}
 		case *ssa.Call:
-			if g := helperOf(x); g != nil {
-				visitResults(g, -1)
-				return
+			if gs := helpersOf(x); len(gs) > 0 {
+				for _, g := range gs {
+					visitResults(g, -1)
+				}
+				if !rg.opaqueToo[x] {
+					return
+				}
 			}
 			follow := o.ThroughCalls
 			if o.ThroughCallsIf != nil {
@@ -853,6 +872,22 @@ func BackSlice(v ssa.Value, o SliceOpts) map[ssa.Value]bool {
 	}
 	visit(v)
 	return seen
+}
+
+// ArgForParam returns the value a call instruction passes for the callee's j-th parameter (Params index: for a method
+// the receiver is parameter 0), nil when there is none.
+func ArgForParam(cs ssa.CallInstruction, j int) ssa.Value {
+	cc := cs.Common()
+	if cc.IsInvoke() {
+		if j == 0 {
+			return cc.Value
+		}
+		j--
+	}
+	if j < 0 || j >= len(cc.Args) {
+		return nil
+	}
+	return cc.Args[j]
 }
 
 // storedValues returns values stored (anywhere in the function, flow
